@@ -242,6 +242,13 @@ func (p *uPacketPacker) appendInitialPacket(buffer *packetBuffer, header *wire.E
 	if err != nil {
 		return nil, err
 	}
+	// [UQUIC] MarshalInitialPacketPayload only advances the datagram index on the
+	// QUICFrameBuilderEx path. With a nil FrameBuilder, an empty QUICFrames or a plain
+	// QUICFrameBuilder the index stayed 0, so InitialPackets[0] was applied to every
+	// datagram and the later entries of the plan never took effect.
+	if p.initialDatagramIdx == idx {
+		p.initialDatagramIdx++
+	}
 	return p.appendInitialPacketPayload(buffer, header, pl, uPayload, idx, encLevel, sealer, v)
 }
 
